@@ -170,6 +170,7 @@ def generate(repo, g):
     pu = Src(repo, 'jedi/parser_utils.py')
     g.fp(pu, 'cut_value_at_position')
     iter_arguments_reads(helpers, g)
+    sort_key(helpers, g)
 
 
 # ---------------------------------------------------------------------------------------------
@@ -351,3 +352,56 @@ def iter_arguments_reads(helpers, g):
     g.fp(helpers, '_iter_arguments')
     g.fp(helpers, 'get_signature_details')
     g.fp(helpers, '_get_signature_details_from_error_node')
+
+
+# ---------------------------------------------------------------------------------------------
+# the key of helpers.sorted_definitions
+
+def sort_key(helpers, g):
+    """`return sorted(defs, key=lambda x: (<component>, ...))`; a component is
+    `[str(] x.<attribute path> [or <int or str literal>] [)]`.  Output: one row per component:
+    (attribute path, wrapped in str(), int literal after `or`, str literal after `or`)."""
+    fn = helpers.find('sorted_definitions')
+    body = [s for s in fn.body if not (isinstance(s, ast.Expr) and isinstance(s.value, ast.Constant))]
+    if [a.arg for a in fn.args.args] != ['defs'] or len(body) != 1 or not isinstance(body[0], ast.Return):
+        raise TieBroken('helpers.py: sorted_definitions is not a single `return sorted(defs, key=...)`')
+    call = body[0].value
+    ok = isinstance(call, ast.Call) and u(call.func) == 'sorted' and [u(a) for a in call.args] == ['defs'] \
+        and [k.arg for k in call.keywords] == ['key'] and isinstance(call.keywords[0].value, ast.Lambda)
+    if not ok:
+        raise TieBroken('helpers.py: sorted_definitions is not `sorted(defs, key=lambda ...)`', u(body[0]))
+    lam = call.keywords[0].value
+    if [a.arg for a in lam.args.args] != ['x'] or not isinstance(lam.body, ast.Tuple):
+        raise TieBroken('helpers.py: sorted_definitions key is not `lambda x: (..., ...)`', u(lam))
+    rows = []
+    for e in lam.body.elts:
+        src = u(e)
+        wrapped = False
+        if isinstance(e, ast.Call) and u(e.func) == 'str' and len(e.args) == 1 and not e.keywords:
+            wrapped, e = True, e.args[0]
+        int_default = str_default = None
+        if isinstance(e, ast.BoolOp):
+            if not (isinstance(e.op, ast.Or) and len(e.values) == 2 and isinstance(e.values[1], ast.Constant)):
+                raise TieBroken('helpers.py: sorted_definitions key component is not `<attr> or <literal>`', src)
+            lit = e.values[1].value
+            if isinstance(lit, bool) or not isinstance(lit, (int, str)) or (isinstance(lit, int) and lit < 0):
+                raise TieBroken('helpers.py: sorted_definitions key default is not an int / str literal', src)
+            if isinstance(lit, int):
+                int_default = lit
+            else:
+                str_default = lit
+            e = e.values[0]
+        path = []
+        while isinstance(e, ast.Attribute):
+            path.append(e.attr)
+            e = e.value
+        if not (isinstance(e, ast.Name) and e.id == 'x' and path):
+            raise TieBroken('helpers.py: sorted_definitions key component is not an attribute of the definition', src)
+        rows.append(('.'.join(reversed(path)), wrapped, int_default, str_default))
+    opt = lambda v, f: 'none' if v is None else '(some %s)' % f(v)
+    g.define('sortKey', 'List (String × Bool × Option Nat × Option String)',
+             '[' + ', '.join('(%s, %s, %s, %s)' % (lean_str(a), lean_bool(w), opt(i, str), opt(sd, lean_str))
+                             for a, w, i, sd in rows) + ']',
+             'jedi/api/helpers.py:sorted_definitions key tuple: (attribute of the definition, wrapped in str(), '
+             'int literal after `or`, str literal after `or`)')
+    g.fp(helpers, 'sorted_definitions')
